@@ -134,6 +134,64 @@ namespace {
     };
 }
 
+// ---------------------------------------------------------------- intrusive forms
+// Items are owned by the harness and never re-used or freed while the queue lives: dequeue() of the MS family returns an item that is still
+// the queue's dummy node and whose disposer runs after a LATER dequeue, so the disposer only counts and the memory is released after the
+// queue has been destroyed.
+namespace {
+    namespace ci = cds::intrusive;
+    std::atomic<uint64_t> g_disposed{ 0 };
+    struct CountDisposer { template <class T> void operator()( T* ) const { g_disposed.fetch_add( 1, std::memory_order_relaxed ); } };
+
+    template <class Node> struct IItem: Node { Val v; };
+    inline std::vector<std::shared_ptr<void>>& graveyard() { static std::vector<std::shared_ptr<void>> g; return g; }
+
+    template <class Q, class Item>
+    struct IntrQueueAdapter: Attach {
+        std::unique_ptr<Q> q;
+        // stable addresses; the retired-item callback of the queue (clear_links + disposer) WRITES into an item whenever the SMR gets
+        // round to it, so the items must outlive the SMR singleton: they go to a graveyard that main() empties after ~HP/~DHP
+        std::shared_ptr<std::deque<Item>> items;
+        std::mutex items_lock;
+        IntrQueueAdapter() : q( new Q ), items( new std::deque<Item> ) {}
+        ~IntrQueueAdapter() { q->clear(); q.reset(); graveyard().push_back( items ); }
+        Item* alloc()
+        {
+            std::lock_guard<std::mutex> g( items_lock );
+            items->emplace_back();
+            return &items->back();
+        }
+        int64_t capacity() { return -1; }
+        int64_t exec( int op, int64_t uid, int64_t, int64_t& )
+        {
+            switch ( op ) {
+            case S_PUSH_BACK: { Item* it = alloc(); it->v = Val( uid ); return (( uid & 1 ) ? q->enqueue( *it ) : q->push( *it )) ? 1 : 0; }
+            case S_POP_FRONT: {
+                Item* p = ( uid & 1 ) ? q->dequeue() : q->pop();
+                if ( !p ) return -1;
+                return p->v.good() ? p->v.uid : (( int64_t( 1 ) << 62 ) | ( p->v.uid & 0xffffff ));
+            }
+            case S_EMPTY: return q->empty() ? 1 : 0;
+            }
+            return -9;
+        }
+        void mechanisms( PropStats& ps ) { ps.add_mech( "intrusive.disposer_calls", g_disposed.exchange( 0 )); }
+    };
+
+    template <class GC> struct ims_item { typedef IItem< ci::msqueue::node<GC> > type; };
+    template <class GC, class IC_> struct ims_traits: ci::msqueue::traits {
+        typedef ci::msqueue::base_hook< cds::opt::gc<GC> > hook; typedef CountDisposer disposer; typedef IC_ item_counter;
+    };
+    template <class GC> struct ibq_item { typedef IItem< ci::basket_queue::node<GC> > type; };
+    template <class GC> struct ibq_traits: ci::basket_queue::traits {
+        typedef ci::basket_queue::base_hook< cds::opt::gc<GC> > hook; typedef CountDisposer disposer; typedef cds::atomicity::item_counter item_counter;
+    };
+    template <class GC> struct ioq_item { typedef IItem< ci::optimistic_queue::node<GC> > type; };
+    template <class GC> struct ioq_traits: ci::optimistic_queue::traits {
+        typedef ci::optimistic_queue::base_hook< cds::opt::gc<GC> > hook; typedef CountDisposer disposer; typedef cds::atomicity::item_counter item_counter;
+    };
+}
+
 int main( int argc, char** argv )
 {
     parse_args( argc, argv );
@@ -160,6 +218,22 @@ int main( int argc, char** argv )
         run_queue< QA< cc::OptimisticQueue<DHP, Val, opt_traits<IC, Sc, BoD>>, MechOpt >>( "OptimisticQueue<DHP,ic,seqcst,backoff>", w );
         run_queue< QA< cc::OptimisticQueue<DHP, Val, opt_traits<NoIC, Rlx, BoE>>, MechOpt >>( "OptimisticQueue<DHP,relaxed>", w );
 
+        {
+            // empty() is not in the alphabet: C06 speaks about enqueue/dequeue, and OptimisticQueue::empty() compares two independently
+            // loaded pointers (it was seen returning true on a queue that was never empty during the call)
+            Weights wi{ 5, 5, 0, 0, 0 };
+            typedef ims_item<HP>::type I1; typedef ims_item<DHP>::type I2;
+            run_queue< IntrQueueAdapter< ci::MSQueue<HP, I1, ims_traits<HP, IC>>, I1 > >( "intrusive::MSQueue<HP,ic>", wi );
+            run_queue< IntrQueueAdapter< ci::MSQueue<DHP, I2, ims_traits<DHP, NoIC>>, I2 > >( "intrusive::MSQueue<DHP>", wi );
+            run_queue< IntrQueueAdapter< ci::MoirQueue<HP, I1, ims_traits<HP, NoIC>>, I1 > >( "intrusive::MoirQueue<HP>", wi );
+            run_queue< IntrQueueAdapter< ci::MoirQueue<DHP, I2, ims_traits<DHP, IC>>, I2 > >( "intrusive::MoirQueue<DHP,ic>", wi );
+            typedef ibq_item<HP>::type B1; typedef ibq_item<DHP>::type B2;
+            run_queue< IntrQueueAdapter< ci::BasketQueue<HP, B1, ibq_traits<HP>>, B1 > >( "intrusive::BasketQueue<HP>", wi );
+            run_queue< IntrQueueAdapter< ci::BasketQueue<DHP, B2, ibq_traits<DHP>>, B2 > >( "intrusive::BasketQueue<DHP>", wi );
+            typedef ioq_item<HP>::type O1; typedef ioq_item<DHP>::type O2;
+            run_queue< IntrQueueAdapter< ci::OptimisticQueue<HP, O1, ioq_traits<HP>>, O1 > >( "intrusive::OptimisticQueue<HP>", wi );
+            run_queue< IntrQueueAdapter< ci::OptimisticQueue<DHP, O2, ioq_traits<DHP>>, O2 > >( "intrusive::OptimisticQueue<DHP>", wi );
+        }
         run_queue< QA< cc::RWQueue<Val, rw_traits<cds::sync::spin>>, MechNone, NoAttach >>( "RWQueue<spin>", w );
         run_queue< QA< cc::RWQueue<Val, rw_traits<std::mutex>>, MechNone, NoAttach >>( "RWQueue<std::mutex>", w );
 
@@ -173,5 +247,6 @@ int main( int argc, char** argv )
         run_queue< QA< cc::FCQueue<Val, std::queue<Val>, fc_traits<false, fc::wait_strategy::single_mutex_multi_condvar<>, cds::sync::spin>>, MechFC >>( "FCQueue<noelim,sm>", wf );
         run_queue< QA< cc::FCQueue<Val, std::queue<Val>, fc_traits<true, fc::wait_strategy::multi_mutex_multi_condvar<>, cds::sync::spin>>, MechFC >>( "FCQueue<elim,mm>", wf );
     }
+    graveyard().clear();     // the SMR singletons are gone: nothing refers to the intrusive items any more
     return finish( "queue" );
 }
